@@ -1,6 +1,7 @@
 package vc
 
 import (
+	"os"
 	"fmt"
 	"go/token"
 	"go/types"
@@ -195,11 +196,43 @@ func (e *Engine) stdModel(f *frame, fn *ssa.Function, args []Val, pos token.Pos)
 			}
 		}
 		fp := Val{T: types.NewPointer(ft), C: b.C, Root: RootObj, RootT: typeKey(bt), Path: ".buf"}
+		na0 := len(e.Assumptions)
 		old := e.load(f.st, fp)
+		if os.Getenv("GOVC_DEBUG") != "" {
+			fmt.Fprintf(os.Stderr, "Buffer.Write model: depth=%d loaded %d comps, %d new assumptions\n", e.specDepth, len(old.C), len(e.Assumptions)-na0)
+			for _, a := range e.Assumptions[na0:] {
+				fmt.Fprintf(os.Stderr, "   %s\n", e.X.Script([]*smt.Term{a}, nil, "ALL", false).Text)
+			}
+		}
 		nw := e.appendCore(f, old, p, pos)
 		e.store(f.st, fp, nw)
 		errT := fn.Signature.Results().At(1).Type()
 		return Val{T: fn.Signature.Results(), Tup: []Val{e.intVal(types.Typ[types.Int], p.ln()), e.zeroVal(errT)}}, true
+	case "io.ReadFull":
+		// assumed model: io.ReadFull(r, buf) over a reader model that declares verifReadFull behaves
+		// as that method says, whatever way the reader fragments its data across Read calls
+		// (io.ReadAtLeast keeps calling Read until buf is full or Read fails)
+		r, buf := args[0], args[1]
+		for _, t := range e.concreteTypes() {
+			ms := e.Prog.MethodSets.MethodSet(t)
+			for i := 0; i < ms.Len(); i++ {
+				if ms.At(i).Obj().Name() != "verifReadFull" {
+					continue
+				}
+				mfn := e.Prog.MethodValue(ms.At(i))
+				if mfn == nil {
+					continue
+				}
+				if _, isPtr := t.(*types.Pointer); !isPtr {
+					continue
+				}
+				e.UsedStd["assumed: io.ReadFull over "+shortType(t)+" behaves as its verifReadFull method (io.ReadAtLeast's loop over any fragmentation of the data)"] = true
+				e.oblige("assert", "io.ReadFull: the reader is the model "+shortType(t), X.Eq(r.C[0], X.Const(uint64(e.tagOf(t)), 32)), pos)
+				rv := e.fromInterface(r, t)
+				return e.callFunction(f, mfn, []Val{rv, buf}, nil, nil, pos), true
+			}
+		}
+		return Val{}, false
 	case "time.Now":
 		e.UsedStd["assumed: time.Now returns some time value and touches no library memory"] = true
 		return e.freshVal("now", resultType(fn.Signature)), true
